@@ -1,6 +1,8 @@
 \* C20 case emission: every configuration with the response the spec predicts (UnsupportedRule is set by the check to what the tree does).
 CONSTANTS
   UnsupportedRule = "pass"
+  HeadRule = "pass"
+  CtRule = "caseinsensitive"
   ParseRule = "scripting"
   CspRule = "policylist"
   LengthRule = "set"
